@@ -150,6 +150,12 @@ func runC08(c *Check, w *World) {
 	}
 	ruleHistoryIndependence(c, w, tb, ef, "R08.H", f)
 	checkRESTEndpoints(c, w, tb, ef, "R08.REST", "/otp/secret")
+	// the reading side: what RandomSecret writes is decoded by DecodeSecret through the one strict base32 path
+	if dec := w.Func(OtpPath, "DecodeSecret"); dec != nil {
+		ruleDecodePipeline(c, w, tb, dec, "R08.5", "R08.5")
+	} else {
+		c.Fatal("anchor not found: DecodeSecret")
+	}
 	c.Floor("R08.1", 3)
 	c.Floor("R08.2", 1)
 	c.Floor("R08.3", 1)
